@@ -32,9 +32,7 @@ var lockTable = []lockRow{
 }
 
 // lockExempt: function → reason. Exemptions are per named symbol.
-var lockExempt = map[string]string{
-	"(*dnsserver.FBDNSDB).Load": "documented initial load: runs before the server is started and before any reload source is armed for this handler (fbserver.Server.Start loads, then starts listeners)",
-}
+var lockExempt = map[string]string{}
 
 func (c *Ctx) guardSpec(r lockRow) *GuardSpec {
 	if r.OuterField != "" {
